@@ -16,11 +16,13 @@ PROPS['C18'] = dict(
                 'be accepted and one addressed to another id refused. After resets, switches, loads, hook setters and failures the registered note '
                 'and debug hooks are triggered (note on a missing bank) and the loaded looped one-bar song is played tick-driven to its end: '
                 'passes = loop settings of the model, per-track note counts = track/channel switches, driver time = tempo multiplier, raw-event / '
-                'loop-start / loop-end hooks must fire on the registered user data only. Scheduled (after failures and their follow-ups, after '
-                '30 % of the re-initialising calls, 8 % otherwise) a fresh instance is configured only with what the model holds and plays the '
-                'same phrase (programs, 6 notes on 3 channels incl. percussion, CC7/10/11/74/1, pitch bend, 3 x 512 frames): the canonical '
-                'register-write logs must be equal and, when the chips under test were re-created by the last call, the PCM bit-identical; a '
-                'mismatch is attributed by re-rendering with single settings changed. Rejected bank: lookups of the loaded image\'s bank ids and '
+                'loop-start / loop-end hooks must fire on the registered user data only. After every failing call, every follow-up, every '
+                're-initialising call (reset, switch, loads, chip count, chip type, run-at-PCM-rate), every setter without getter and 8 % of the '
+                'others a fresh instance is configured only with what the model holds and plays the same phrase (programs, 6 notes on 3 channels '
+                'incl. percussion, CC7/10/11/74/1, pitch bend, 3 x 512 frames): the canonical register-write logs and the LFO register must be '
+                'equal and, when the chips under test were re-created by the last call (cores 0, 2, 4, 5), the PCM bit-identical; a mismatch is '
+                'attributed by re-rendering with single settings changed, a PCM-only mismatch also against a reference whose last configuration '
+                'step was a full set-up instead of a partial reset. Rejected bank: lookups of the loaded image\'s bank ids and '
                 'the phrase unchanged; rejected music: error text non-empty, settings unchanged, the surviving song still obeys the loop count, a '
                 'valid file loads and plays to its end.'),
     level_note=('exploration, not exhaustive; trusted: clang 14 ASan, the reference model, determinism of identically configured instances (C14) with '
@@ -28,7 +30,10 @@ PROPS['C18'] = dict(
                 '(envelope / LFO phase of earlier notes is state, not a setting); otherwise release times are drained and only register logs are '
                 'compared. A register write that is overwritten by the very next write to the same register is dropped from both logs (the pan '
                 'register is written twice per note, first with the previous pan bits). PCM differing with equal logs and no explaining setting '
-                'is counted (pcm_differs_but_registers_equal), not reported. Emulators 0,2,4,5 (3,6 rarely); never 1/8 (slow) or 7 (file dumper). '
+                'is counted (pcm_differs_but_registers_equal), not reported. Emulators 0,2,4,5 (3,6 rarely and without PCM comparison: the YMFM cores '
+                'apply writes through a timed queue, so the number of writes before the phrase shifts the signal); never 1/8 (slow) or 7 (file '
+                'dumper). With > 8 chips the phrase is played without audio calls. After a reported discrepancy the model follows the '
+                'implementation (one witness per key and case). '
                 'opn2_setLoopCount is followed by opn2_positionRewind (the count applies from the next start of the song, C09).'),
     rule=('one case = fresh instance (rate from 8 values) + configuration head + random history; distinct = coverage items (call kind, outcome '
           'ok/fail/void/void-3v, kind of the preceding failed call), (call kind, outcome, each non-default setting at that moment) and '
@@ -44,6 +49,6 @@ PROPS['C18'] = dict(
                  'opn2_setTempo(<= 0) returns nothing and must change nothing (the header documents a positive multiplier)',
                  'initial values of a fresh instance are adopted, not modelled'],
     stages=[
-        dict(name='histories', variant='asan', harness='c18_settings.cpp', quick=1200, thorough=12000, budget=120, cxxflags=['-O1']),
+        dict(name='histories', variant='asan', harness='c18_settings.cpp', quick=600, thorough=6000, budget=60, cxxflags=['-O1']),
     ],
 )
